@@ -220,7 +220,13 @@ impl Heap {
             cell::Cell::Undefined => VCell::Undefined,
             cell::Cell::Void => VCell::Void,
             cell::Cell::Nil => VCell::Nil,
-            cell::Cell::Number(ref val) => VCell::Number(val.clone()),
+            cell::Cell::Number(ref val) => {
+                // kept inline in the code or the vector it is a literal of: the digits of a
+                // bignum count all the same
+                let vcell = VCell::Number(val.clone());
+                self.payload = self.payload.saturating_add(payload(&vcell));
+                vcell
+            }
             cell::Cell::Bool(val) => VCell::Bool(val),
             cell::Cell::Char(val) => VCell::Char(val),
             cell::Cell::Pair(ref car, ref cdr) => {
